@@ -244,7 +244,7 @@ def run_layouts(chk, binary, sc, tier, want_valid, want_invalid, chain):
     jobs = layout_jobs(tier, want_valid, want_invalid)
     jf = sc.path("layout_jobs.ndjson")
     write_ndjson(jf, jobs)
-    res = run_tlc("DslLayoutMC", LAYOUT_CFG, sc, data_files={"layout_jobs.ndjson": jf}, defs=LAYOUT_DEFS, timeout=3000)
+    res = run_tlc("DslLayoutMC", LAYOUT_CFG, sc, data_files={"layout_jobs.ndjson": jf}, defs=LAYOUT_DEFS, timeout=3000, cache=True)
     recs = {r["id"]: r for r in res.records}
     if len(recs) != len(jobs):
         raise Infra("TLC rendered %d of %d layout jobs\n%s" % (len(recs), len(jobs), res.tail[-1500:]))
